@@ -1165,3 +1165,192 @@ Proof.
   split; [rewrite debug_rows_eq, empty_rows_eq; exact E1|]. split; [exact E2|]. split; [exact E3|].
   unfold mock_eq. rewrite Hc'. apply list_eqb_refl.
 Qed.
+
+(* ---- from_pattern places every character; Debug prints the pattern back ------------------------------- *)
+(* cell <-> character correspondence *)
+Definition cc (m : mapping) (c : option Z) (ch : Z) : Prop := enc m c = Ok ch /\ pattern_char m ch = Ok c.
+
+Lemma cc_none_space m : cc m None SPACE.
+Proof. unfold cc, pattern_char. cbn [enc]. rewrite Z.eqb_refl. auto. Qed.
+
+Lemma cc_blank m c ch : cc m c ch -> negb (is_some c) = (ch =? SPACE).
+Proof.
+  intros [H1 H2]. destruct c as [v|]; cbn [enc is_some negb] in *.
+  - unfold pattern_char in H2. destruct (ch =? SPACE); [discriminate|reflexivity].
+  - inversion H1. subst. rewrite Z.eqb_refl. reflexivity.
+Qed.
+
+Lemma mapM_Forall2 {A B} (f : A -> result B) (Rel : A -> B -> Prop) l ys :
+  (forall x y, Rel x y -> f x = Ok y) -> Forall2 Rel l ys -> mapM f l = Ok ys.
+Proof.
+  intros Hf H. induction H as [|x y l ys Hxy Hl IH]; cbn [mapM]; [reflexivity|].
+  rewrite (Hf x y Hxy), IH. reflexivity.
+Qed.
+
+Lemma mapM_pattern_char m r :
+  In m all_mappings -> Forall (char_valid m) r -> exists cs, mapM (pattern_char m) r = Ok cs /\ Forall2 (cc m) cs r.
+Proof.
+  intros Hm. induction 1 as [|ch r Hc Hr IH]; cbn [mapM].
+  - exists []. split; [reflexivity|constructor].
+  - destruct IH as [cs [E F]]. destruct (pattern_char_roundtrip m ch Hm Hc) as [c [E1 [E2 _]]].
+    exists (c :: cs). rewrite E1, E. cbn [bind]. split; [reflexivity|]. constructor; [split; assumption|assumption].
+Qed.
+
+Lemma Forall2_repeat {A B} (Rel : A -> B -> Prop) a b n : Rel a b -> Forall2 Rel (repeat a n) (repeat b n).
+Proof. intros H. induction n; cbn [repeat]; constructor; assumption. Qed.
+
+Lemma Forall2_firstn {A B} (Rel : A -> B -> Prop) n l1 l2 : Forall2 Rel l1 l2 -> Forall2 Rel (firstn n l1) (firstn n l2).
+Proof. intros H. revert n. induction H; intros [|n]; cbn [firstn]; constructor; auto. Qed.
+
+Lemma Forall2_pad {A B} (Rel : A -> B -> Prop) n a b l1 l2 :
+  Rel a b -> Forall2 Rel l1 l2 -> Forall2 Rel (pad n a l1) (pad n b l2).
+Proof. intros Hab H. unfold pad. apply Forall2_firstn, Forall2_app; [assumption|apply Forall2_repeat, Hab]. Qed.
+
+Lemma Forall2_rev' {A B} (Rel : A -> B -> Prop) l1 l2 : Forall2 Rel l1 l2 -> Forall2 Rel (rev l1) (rev l2).
+Proof. induction 1; cbn [rev]; [constructor|]. apply Forall2_app; [assumption|constructor; [assumption|constructor]]. Qed.
+
+Lemma Forall2_concat {A B} (Rel : A -> B -> Prop) l1 l2 :
+  Forall2 (Forall2 Rel) l1 l2 -> Forall2 Rel (concat l1) (concat l2).
+Proof. induction 1; cbn [concat]; [constructor|apply Forall2_app; assumption]. Qed.
+
+Lemma Forall2_take_while {A B} (Rel : A -> B -> Prop) (f : A -> bool) (g : B -> bool) l1 l2 :
+  (forall x y, Rel x y -> f x = g y) -> Forall2 Rel l1 l2 ->
+  length (take_while f l1) = length (take_while g l2).
+Proof.
+  intros Hfg H. induction H as [|x y l1 l2 Hxy Hl IH]; cbn [take_while]; [reflexivity|].
+  rewrite (Hfg x y Hxy). destruct (g y); cbn [length]; congruence.
+Qed.
+
+Lemma Forall2_length {A B} (Rel : A -> B -> Prop) l1 l2 : Forall2 Rel l1 l2 -> length l1 = length l2.
+Proof. induction 1; cbn [length]; congruence. Qed.
+
+Lemma Forall2_nth {A B} (Rel : A -> B -> Prop) l1 l2 a b i :
+  Rel a b -> Forall2 Rel l1 l2 -> Rel (nth i l1 a) (nth i l2 b).
+Proof. intros Hab H. revert i. induction H; intros [|i]; cbn [nth]; auto. Qed.
+
+Fixpoint drop_while {A} (f : A -> bool) (l : list A) : list A :=
+  match l with [] => [] | x :: t => if f x then drop_while f t else l end.
+
+Lemma take_drop {A} (f : A -> bool) l : l = take_while f l ++ drop_while f l.
+Proof. induction l as [|x l IH]; cbn [take_while drop_while]; [reflexivity|]. destruct (f x); cbn [app]; congruence. Qed.
+
+Lemma firstn_trailing {A} (f : A -> bool) l :
+  firstn (length l - length (take_while f (rev l))) l = rev (drop_while f (rev l)).
+Proof.
+  pose proof (take_drop f (rev l)) as E.
+  assert (l = rev (drop_while f (rev l)) ++ rev (take_while f (rev l))) as El
+    by (rewrite <- rev_app_distr, <- E, rev_involutive; reflexivity).
+  set (tw := take_while f (rev l)) in *. set (dw := drop_while f (rev l)) in *.
+  assert (length l = length dw + length tw)%nat as Hl by (rewrite El at 1; rewrite app_length, !rev_length; reflexivity).
+  replace (length l - length tw)%nat with (length (rev dw)) by (rewrite rev_length; lia).
+  rewrite El at 1. rewrite firstn_app, Nat.sub_diag, firstn_O, app_nil_r. apply firstn_all.
+Qed.
+
+Lemma repeat_snoc {A} (x : A) n : repeat x n ++ [x] = x :: repeat x n.
+Proof. induction n; cbn [repeat app]; [reflexivity|]. rewrite IHn. reflexivity. Qed.
+
+Lemma rev_repeat' {A} (x : A) n : rev (repeat x n) = repeat x n.
+Proof. induction n; cbn [repeat rev]; [reflexivity|]. rewrite IHn. apply repeat_snoc. Qed.
+
+Lemma drop_while_repeat {A} (f : A -> bool) x j l : f x = true -> drop_while f (repeat x j ++ l) = drop_while f l.
+Proof. intros H. induction j; cbn [repeat app drop_while]; [reflexivity|]. rewrite H. assumption. Qed.
+
+Lemma firstn_app_len {A} n (l1 l2 : list A) : length l1 = n -> firstn n (l1 ++ l2) = l1.
+Proof. intros <-. rewrite firstn_app, Nat.sub_diag, firstn_O, app_nil_r. apply firstn_all. Qed.
+
+Lemma skipn_app_len {A} n (l1 l2 : list A) : length l1 = n -> skipn n (l1 ++ l2) = l2.
+Proof. intros <-. rewrite skipn_app, Nat.sub_diag, skipn_all. reflexivity. Qed.
+
+Lemma chunks_concat {A} n (ll : list (list A)) :
+  (0 < n)%nat -> Forall (fun r => length r = n) ll -> chunks n (concat ll) = ll.
+Proof.
+  intros Hn H. unfold chunks.
+  assert (forall fuel, (length ll <= fuel)%nat -> chunks_fuel fuel n (concat ll) = ll) as G.
+  { induction H as [|r ll Hr Hll IH]; intros fuel Hf.
+    - destruct fuel; reflexivity.
+    - destruct fuel as [|fuel]; [cbn [length] in Hf; lia|]. cbn [concat chunks_fuel].
+      destruct (r ++ concat ll) as [|a t] eqn:E.
+      + apply (f_equal (@length A)) in E. rewrite app_length in E. cbn [length] in E. lia.
+      + rewrite <- E. rewrite (firstn_app_len n r (concat ll) Hr), (skipn_app_len n r (concat ll) Hr).
+        f_equal. apply IH. cbn [length] in Hf. lia. }
+  apply G. clear G. induction H as [|r ll Hr Hll IH]; cbn [concat length]; [lia|]. rewrite app_length. lia.
+Qed.
+
+Lemma length_concat_uniform {A} n (ll : list (list A)) :
+  Forall (fun r => length r = n) ll -> length (concat ll) = (length ll * n)%nat.
+Proof. induction 1 as [|r ll Hr Hll IH]; cbn [concat length]; [reflexivity|]. rewrite app_length, IH, Hr. lia. Qed.
+
+Definition is_blank (row : list Z) : bool := forallb (fun ch => ch =? SPACE) row.
+(* Debug's view of a pattern: every row padded to SIZE columns, trailing blank rows dropped *)
+Definition normalise (pat : list (list Z)) : list (list Z) :=
+  rev (drop_while is_blank (rev (map (pad NS SPACE) pat))).
+
+Definition pattern_wf (m : mapping) (pat : list (list Z)) : Prop :=
+  (length pat <= NS)%nat /\ (exists w, (w <= NS)%nat /\ Forall (fun r => length r = w) pat) /\
+  Forall (Forall (char_valid m)) pat.
+
+Lemma row_blank m r chs : Forall2 (cc m) r chs -> row_is_empty r = is_blank chs.
+Proof.
+  induction 1 as [|c ch r chs Hc Hr IH]; [reflexivity|].
+  unfold row_is_empty, is_blank in *. cbn [forallb]. rewrite IH, (cc_blank m c ch Hc). reflexivity.
+Qed.
+
+Lemma pattern_rows_ok m pat :
+  In m all_mappings -> Forall (fun r => length r <= NS)%nat pat -> Forall (Forall (char_valid m)) pat ->
+  exists rowsC, mapM (pattern_row m) pat = Ok rowsC /\
+    Forall2 (Forall2 (cc m)) rowsC (map (pad NS SPACE) pat) /\ Forall (fun r => length r = NS) rowsC.
+Proof.
+  intros Hm Hl Hv. induction pat as [|r pat IH]; cbn [mapM map].
+  - exists []. split; [reflexivity|]. split; constructor.
+  - inversion Hl as [|? ? Hr Hl']; inversion Hv as [|? ? Hvr Hv']; subst.
+    destruct (IH Hl' Hv') as [rowsC [E [F L]]].
+    destruct (mapM_pattern_char m r Hm Hvr) as [cs [E1 F1]].
+    exists (pad NS None cs :: rowsC). unfold pattern_row at 1. rewrite E1. cbn [bind]. rewrite E. cbn [bind].
+    split; [reflexivity|]. split.
+    + constructor; [|assumption]. apply Forall2_pad; [apply cc_none_space|assumption].
+    + constructor; [apply pad_length|assumption].
+Qed.
+
+(* the list-level core of from_pattern followed by Debug *)
+Lemma pattern_then_debug_core m pat :
+  In m all_mappings -> pattern_wf m pat ->
+  exists L, from_pattern m pat = bind (store_from (PositiveMap.empty Z) 0 L) (fun c => Ok (D c false false)) /\
+    length L = (NS * NS)%nat /\
+    Forall2 (cc m) L (concat (map (pad NS SPACE) pat ++ repeat (repeat SPACE NS) (NS - length pat))) /\
+    mapM (mapM (enc m)) (firstn (NS - length (take_while row_is_empty (rev (chunks NS L)))) (chunks NS L)) = Ok (normalise pat).
+Proof.
+  intros Hm [Hh [[w [Hw Hrows]] Hv]].
+  assert (0 < NS)%nat as HNS by (vm_compute; lia).
+  destruct (pattern_rows_ok m pat Hm) as [rowsC [E [F Lr]]]; [revert Hrows; apply Forall_impl; intros; lia|assumption|].
+  set (j := (NS - length pat)%nat).
+  set (R' := rowsC ++ repeat (repeat (@None Z) NS) j).
+  set (CH' := map (pad NS SPACE) pat ++ repeat (repeat SPACE NS) j).
+  assert (length rowsC = length pat) as Hlr by (apply Forall2_length in F; rewrite map_length in F; exact F).
+  assert (Forall (fun r => length r = NS) R') as HR'.
+  { apply Forall_app. split; [assumption|]. apply Forall_forall. intros r Hr. apply repeat_spec in Hr. subst. apply repeat_length. }
+  assert (length R' = NS) as HlR' by (unfold R'; rewrite app_length, repeat_length, Hlr; unfold j; lia).
+  assert (Forall2 (Forall2 (cc m)) R' CH') as FR.
+  { apply Forall2_app; [assumption|]. apply Forall2_repeat, Forall2_repeat, cc_none_space. }
+  exists (concat R'). split; [|split; [|split]].
+  - rewrite from_pattern_checked.
+    + rewrite E. cbn [bind]. f_equal. f_equal. unfold R'. rewrite concat_app. apply pad_none_tail.
+      * apply Forall_concat. apply Forall_forall. intros r Hr. apply repeat_spec in Hr. subst.
+        apply Forall_forall. intros c Hc. apply repeat_spec in Hc. exact Hc.
+      * rewrite <- concat_app. fold R'. rewrite (length_concat_uniform NS R' HR'), HlR'. symmetry. apply NSNS_NCELLS.
+    + destruct pat as [|r t]; [pose proof SIZE_pos; lia|]. inversion Hrows; subst. unfold zlen. rewrite <- NS_SIZE. lia.
+    + unfold zlen. rewrite <- NS_SIZE. lia.
+    + destruct pat as [|r t]; [constructor|]. inversion Hrows as [|? ? Hr Ht]; subst.
+      apply Forall_forall. intros r' Hr'. rewrite Forall_forall in Hrows. unfold zlen. rewrite (Hrows r' Hr'). reflexivity.
+  - rewrite (length_concat_uniform NS R' HR'), HlR'. reflexivity.
+  - apply Forall2_concat. exact FR.
+  - rewrite (chunks_concat NS R' HNS HR').
+    rewrite (Forall2_take_while (Forall2 (cc m)) row_is_empty is_blank (rev R') (rev CH') (row_blank m) (Forall2_rev' _ _ _ FR)).
+    assert (length CH' = NS) as HlC by (apply Forall2_length in FR; congruence).
+    rewrite (mapM_Forall2 (mapM (enc m)) (Forall2 (cc m)) (firstn (NS - length (take_while is_blank (rev CH'))) R')
+                          (firstn (NS - length (take_while is_blank (rev CH'))) CH')).
+    + f_equal. rewrite <- HlC at 1. rewrite firstn_trailing. unfold normalise, CH'.
+      rewrite rev_app_distr, rev_repeat', drop_while_repeat; [reflexivity|].
+      unfold is_blank. apply forallb_forall. intros ch Hc. apply repeat_spec in Hc. subst. apply Z.eqb_refl.
+    + intros r chs Hr. apply (mapM_Forall2 (enc m) (cc m)); [|assumption]. intros c ch [H _]. exact H.
+    + apply Forall2_firstn. exact FR.
+Qed.
